@@ -230,6 +230,12 @@ class Tests(object):
                 st = 'PSET (%d,%d),%d:DRAW "%s":P0=POINT(0):P1=POINT(1)%s' % (sx, sy, self.events[t['ev'] - 1]['col'], t['text'], mark)
                 st = st.replace('+""', '').replace('""+', '')
                 r = g.ex(st)
+                if r[0] == 'err':
+                    # the DRAW was refused: the rest of the line did not run; observe the pen all the same. The error message is
+                    # written over the graphics screen, so only the pen position is judged (such tests have a screenful of their own)
+                    g.ex('P0=POINT(0):P1=POINT(1)')
+                    e['noref'] = True
+                    t['use_marker'] = False
                 e['stmt'] = st
                 e['kind'] = r[0]
                 e['ok'] = r[0] == 'ok'
@@ -248,6 +254,8 @@ class Tests(object):
                 sx, sy = t['start']
                 lines = [list(s) for s in m['segs']] if m else []
                 e['lines'] = lines
+                if e.get('noref'):
+                    continue
                 if any(s[4] > 255 for s in lines):
                     e['noref'] = True
                     continue
@@ -300,6 +308,9 @@ def random_cmds(rng, W, H, cols, depth=0, maxlen=12):
                         'rel': False, 'b': b, 'nn': nn})
         elif k < 0.87:
             out.append({'c': 'S', 'n': rng.choice([1, 2, 3, 4, 5, 6, 7, 8, 9, 10, 13, 16, 40, 255, rng.randint(1, 255)])})
+            if depth == 0 and rng.random() < 0.12:
+                # a scale outside 1..255: the string is refused there; the scale in force must stay what it was
+                out[-1]['n'] = rng.choice([0, 256, 1000, -4, 0, 256])
         elif k < 0.94 or depth >= 2:
             out.append({'c': 'C', 'n': rng.choice(cols)})
         else:
@@ -356,6 +367,13 @@ def run(ctx):
             cmds = [{'c': 'C', 'n': rng.choice(T.cols)}] + random_cmds(rng, W, H, T.cols)
             start = (rng.randint(0, W - 1), rng.randint(0, H - 1))
             T.add(start, cmds, None, label='random')
+        # a refused scale between two DRAW statements: the scale set before it stays in force (round-2 seeded change C33b)
+        mv = lambda c, n: {'c': c, 'n': n, 'b': False, 'nn': False}
+        for bad in (0, 256, rng.choice([1000, -4, 300])):
+            cell = cells[0]
+            T.add((cell[0] + 8, cell[1] + 8), [{'c': 'C', 'n': T.cols[0]}, {'c': 'S', 'n': rng.choice([8, 12, 2])}, mv('R', 3)], cell, plain=True, label='scale-set')
+            T.add((cell[0] + 8, cell[1] + 16), [mv('D', 2), {'c': 'S', 'n': bad}, mv('R', 9)], None, plain=True, label='scale-refused')
+            T.add((cell[0] + 8, cell[1] + 24), [mv('R', 5), mv('D', 3), {'c': 'S', 'n': 4}], cell, plain=True, label='after-refused-scale')
         # attributes outside the mode's range
         for c in (g.nattr, g.nattr + 1, 255, 300):
             T.add((40, 40), [{'c': 'C', 'n': c}, {'c': 'R', 'n': 5, 'b': False, 'nn': False}, {'c': 'D', 'n': 3, 'b': False, 'nn': False}],
@@ -374,7 +392,7 @@ def run(ctx):
         T.close()
     ctx.cov['impl_wall_s'] = round(time.time() - t1, 1)
     # pass 2: judge
-    keep = ('op', 'pos', 'scale', 'col', 'x', 'y', 'cmds', 'ok', 'kind', 'p0', 'p1', 'lines', 'marks', 'diff', 'clip', 'noref')
+    keep = ('op', 'pos', 'scale', 'col', 'x', 'y', 'cmds', 'ok', 'kind', 'code', 'p0', 'p1', 'lines', 'marks', 'diff', 'clip', 'noref')
     verdicts = ctx.validate('Draw_Trace', [{k: e[k] for k in keep if k in e} for e in allev], header={'compile': False}, name='judge')
     labels = {}
     for T, off in zip(all_tests, offs):
